@@ -238,6 +238,10 @@ def zero_width(spec, ty, modname, _depth=0):
         return True
     if k == 'INTEGER':
         return r.rng is not None and not r.rng.ext and r.rng.lo is not None and r.rng.lo == r.rng.hi
+    if k in ('SEQUENCE OF', 'SET OF') and r.size is not None and not r.size.ext and \
+            r.size.lo is not None and r.size.lo == r.size.hi and r.size.lo > 0:
+        # fixed number of zero-width elements
+        return zero_width(spec, b.elem, r.mod, _depth + 1)
     if k in ('OCTET STRING', 'BIT STRING', 'SEQUENCE OF', 'SET OF') or k in asn.STRING_KINDS:
         z = r.size is not None and not r.size.ext and r.size.lo == 0 and r.size.hi == 0
         return z and k not in ('UTF8String', 'GeneralString', 'GraphicString', 'TeletexString')
